@@ -937,6 +937,35 @@ def deffault_run(case, ctx):
 WEIRD = [None, 0, 1, -1, "s", 1.5, object, [], {}, (), 2 ** 70, len, True, ("a", 1), b"b"]
 
 
+class _Fresh:
+    pass
+
+
+class _FreshStr(str):
+    pass
+
+
+def _overwrite_ops():
+    from traits.ctrait import CTrait
+    ops = {}
+    ops["handler"] = (lambda: Int().as_ctrait(), _Fresh, lambda t, o: setattr(t, "handler", o))
+    ops["post_setattr"] = (lambda: Int().as_ctrait(), lambda: (lambda *a: None), lambda t, o: setattr(t, "post_setattr", o))
+    ops["clone-self"] = (lambda: CTrait(0), _Fresh, lambda t, o: (setattr(t, "handler", o), t.clone(t)))
+    ops["clone-other"] = (lambda: CTrait(0), _Fresh, lambda t, o: (lambda src: (setattr(src, "handler", o), t.clone(src)))(CTrait(0)))
+    ops["property_fields"] = (lambda: T.Property(lambda s_: 1, lambda s_, v: None).as_ctrait(), lambda: (lambda self: 1),
+                              lambda t, o: setattr(t, "property_fields", (o, lambda s_, v: None, None)))
+    ops["property_fields-validate"] = (lambda: T.Property(lambda s_: 1, lambda s_, v: None).as_ctrait(), lambda: (lambda self, v: v),
+                                       lambda t, o: setattr(t, "property_fields", (lambda s_: 1, lambda s_, v: None, o)))
+    ops["delegate-name"] = (lambda: DelegatesTo("d").as_ctrait(), lambda: _FreshStr("dname"), lambda t, o: t.delegate(o, "", 0, True))
+    ops["delegate-prefix"] = (lambda: DelegatesTo("d").as_ctrait(), lambda: _FreshStr("pre"), lambda t, o: t.delegate("d", o, 1, True))
+    ops["set_validate"] = (lambda: Int().as_ctrait(), lambda: (lambda o_, n, v: v), lambda t, o: t.set_validate(o))
+    ops["set_default_value"] = (lambda: Int().as_ctrait(), _Fresh, lambda t, o: t.set_default_value(0, o))
+    ops["__dict__"] = (lambda: Int().as_ctrait(), dict, lambda t, o: setattr(t, "__dict__", o))
+    return ops
+
+
+OVERWRITE = ["handler", "post_setattr", "clone-self", "clone-other", "property_fields", "property_fields-validate", "delegate-name",
+             "delegate-prefix", "set_validate", "set_default_value", "__dict__"]
 PREFIX_VALUES = ["<missing>", "p_", "", 5, None, b"p_", ("p_",), 1.5]
 
 
@@ -972,6 +1001,9 @@ def ctapi_gen(tier, shard, nshards):
         cases.append({"what": "rawkind", "kind": k})
     for variant in ("non-hastraits", "none", "missing", "cycle", "ok"):
         cases.append({"what": "base_trait", "variant": variant})
+    # the same field of one cTrait written again and again: only the last object written may stay referenced
+    for target in OVERWRITE:
+        cases.append({"what": "overwrite", "target": target})
     # Property getters / setters / validators of every positional arity 0..6 (traits documents 0-3 resp. 0-3 and refuses
     # the rest when the Property is defined): define, then get / set / delete through an object
     for g in range(0, 7):
@@ -1055,6 +1087,31 @@ def ctapi_run(case, ctx):
         if e is not None:
             ctx.fail("stale-error/ctrait-api", "%r left the error indicator set: %r" % (case, e))
         _exercise(ct)
+    elif what == "overwrite":
+        mk_trait, mk_obj, op = _overwrite_ops()[case["target"]]
+        t = mk_trait()
+        o = mk_obj()
+        try:
+            op(t, o)
+        except Exception:
+            ctx.label("refused")
+            return
+        r0 = sys.getrefcount(o)
+        for _ in range(10):
+            op(t, o)
+        gc.collect()
+        r1 = sys.getrefcount(o)
+        for _ in range(30):
+            op(t, o)
+        gc.collect()
+        r2 = sys.getrefcount(o)
+        if r1 - r0 or r2 - r1:
+            ctx.fail("refcount/" + ("over-release" if (r1 < r0 or r2 < r1) else "leak"),
+                     "writing the same object into %s of one cTrait again and again changes its reference count by %+d after 10 and %+d "
+                     "after 30 more writes (the trait can only hold one reference)" % (case["target"], r1 - r0, r2 - r1))
+        e = stale_error()
+        if e is not None:
+            ctx.fail("stale-error/ctrait-api", "%r left the error indicator set: %r" % (case, e))
     elif what == "proparity":
         def quiet(f):
             try:
